@@ -58,7 +58,8 @@ func (g *c16Gen) strTerm(s string) string {
 	case "false":
 		return "SFalse"
 	}
-	if z, err := strconv.ParseInt(s, 10, 64); err == nil && strconv.FormatInt(z, 10) == s {
+	// a decimal numeral, with or without leading zeros, is the number it denotes
+	if z, err := strconv.ParseInt(s, 10, 64); err == nil && s[0] != '+' {
 		return fmt.Sprintf("(SNum (%d))", z)
 	}
 	return fmt.Sprintf("(SLit %d%%N)", g.lits.id(s))
@@ -76,7 +77,7 @@ func (g *c16Gen) flTerm(f float64) string {
 }
 
 var c16Ints = []int64{0, 1, -1, 7, 127, -128, 32767, 1 << 31, -(1 << 31), 1 << 53, 1<<53 + 1, -(1<<53 + 1), 1<<62 + 1, math.MaxInt64, math.MinInt64, 123456789012}
-var c16Strs = []string{"x", "héllo wörld", "x\n\"quoted\"\\", "日本語", "x<&>", "true", "false", "42", "-7", "x 😀"}
+var c16Strs = []string{"x", "héllo wörld", "x\n\"quoted\"\\", "日本語", "x<&>", "true", "false", "42", "-7", "x 😀", "010", "0089", "-007", "000"}
 var c16Flts = []float64{0, 1.5, -0.25, 3, 1e-9, 1e300, 0.1, -123456.789, math.MaxFloat64, 5e-324}
 
 // scalar returns a Go scalar value and its gv term. small: keep nested integers exactly representable
@@ -412,6 +413,12 @@ func runC16(env *Env) {
 		{5, nil, "VNil"},
 		{6, nil, "VNil"},
 		{6, &c16S1{A: 1, B: "x"}, "(VPtr " + g.s1Term(c16S1{A: 1, B: "x"}) + ")"},
+	}
+	// numerals as texts (with leading zeros, signs) under every declared type
+	for _, numeral := range []string{"010", "0089", "-007", "000", "42", "9223372036854775807"} {
+		for declared := 1; declared <= 6; declared++ {
+			corpus = append(corpus, fixedCase{declared, numeral, "(VStr " + g.strTerm(numeral) + ")"})
+		}
 	}
 	for i := -len(corpus); i < n; i++ {
 		declared := 0
